@@ -714,6 +714,191 @@ fn lit_case(rt: &Runtime<NoCtx>, drv: &mut Driver, seed: u64, index: u64, rep: &
     rep.hist("literal-variables", answer);
 }
 
+// ------------------------------------------------------------ anonymous records
+
+/// Record literals `{ a: 1, b: true }` (record variables of the checker) used
+/// where a record type is expected — an annotation, a named record, a
+/// parameter, through a variable —, their fields read and assigned. The Lean
+/// side decides with `Typing.recLitFits` / `recFieldFits`; both directions are
+/// compared (a permuted literal must be accepted).
+fn rec_case(rt: &Runtime<NoCtx>, drv: &mut Driver, seed: u64, index: u64, rep: &mut Report) {
+    let mut p = Prng::for_case(seed ^ 0x7265_6376, index);
+    let scalar = ["i32", "u8", "i64", "bool", "String", "f64"];
+    let lean_ty = |t: &str| if t == "String" { "str".to_string() } else { t.to_string() };
+    // the record type: 1‥3 fields
+    let nf = 1 + p.below(3) as usize;
+    let target: Vec<(usize, &str)> = (0..nf).map(|i| (i, *p.pick(&scalar))).collect();
+    // a literal value of (usually) the field's type: (source text, type token for the judge)
+    let value = |p: &mut Prng, t: &str, right: bool| -> (String, String) {
+        let t = if right { t } else { *p.pick(&scalar) };
+        match t {
+            "bool" => ("true".into(), "bool".into()),
+            "String" => ("\"s\"".into(), "str".into()),
+            "f64" => {
+                if p.chance(1, 2) { ("1.5".into(), "float_".into()) } else { ("1.5f64".into(), "f64".into()) }
+            }
+            int => {
+                if p.chance(1, 2) { ("7".into(), "int_".into()) } else { (format!("7{int}"), int.to_string()) }
+            }
+        }
+    };
+    // the literal: usually the same fields, permuted; sometimes one missing / extra / repeated / of another type
+    let mut lit: Vec<(usize, String, String)> = target
+        .iter()
+        .map(|(f, t)| {
+            let right = !p.chance(1, 6);
+            let (src, ty) = value(&mut p, t, right);
+            (*f, src, ty)
+        })
+        .collect();
+    match p.below(10) {
+        0 if lit.len() > 1 => {
+            lit.pop();
+        }
+        1 => {
+            let (src, ty) = value(&mut p, "i32", true);
+            lit.push((7, src, ty));
+        }
+        2 => {
+            let d = lit[0].clone();
+            lit.push(d);
+        }
+        _ => {}
+    }
+    if p.chance(1, 2) {
+        lit.reverse();
+    }
+    let lit_src = format!("{{ {} }}", lit.iter().map(|(f, s, _)| format!("a{f}: {s}")).collect::<Vec<_>>().join(", "));
+    let lit_spec = if lit.is_empty() { "-".to_string() } else { lit.iter().map(|(f, _, t)| format!("{f}:{t}")).collect::<Vec<_>>().join(",") };
+    let target_ty = format!("{{ {} }}", target.iter().map(|(f, t)| format!("a{f}: {t}")).collect::<Vec<_>>().join(", "));
+    let target_spec = target.iter().map(|(f, t)| format!("{f}:{}", lean_ty(t))).collect::<Vec<_>>().join(",");
+    let named = format!("record R {{ {} }}\n", target.iter().map(|(f, t)| format!("a{f}: {t}")).collect::<Vec<_>>().join(", "));
+    let form = p.below(8);
+    let (what, src, request) = match form {
+        0 => ("annotation", format!("fn main() {{ let s: {target_ty} = {lit_src}; }}\n"), format!("c07 rec fits {lit_spec} {target_spec}")),
+        1 => ("named-record", format!("{named}fn main() {{ let s: R = {lit_src}; }}\n"), format!("c07 rec fits {lit_spec} {target_spec}")),
+        2 => ("argument", format!("fn g(x: {target_ty}) {{ }}\nfn main() {{ g({lit_src}); }}\n"), format!("c07 rec fits {lit_spec} {target_spec}")),
+        3 => ("argument-named", format!("{named}fn g(x: R) {{ }}\nfn main() {{ g({lit_src}); }}\n"), format!("c07 rec fits {lit_spec} {target_spec}")),
+        4 => ("through-variable", format!("{named}fn main() {{ let r = {lit_src}; let s: R = r; }}\n"), format!("c07 rec fits {lit_spec} {target_spec}")),
+        5 => ("returned", format!("fn main() -> {target_ty} {{ {lit_src} }}\n"), format!("c07 rec fits {lit_spec} {target_spec}")),
+        6 => {
+            let f = if p.chance(1, 6) { 7 } else { target[p.below(nf as u64) as usize].0 };
+            let t = if p.chance(3, 4) { target.iter().find(|x| x.0 == f).map(|x| x.1).unwrap_or("i32") } else { *p.pick(&scalar) };
+            ("field-read", format!("fn main() {{ let r = {lit_src}; let u: {t} = r.a{f}; }}\n"), format!("c07 rec field {lit_spec} {f} {}", lean_ty(t)))
+        }
+        _ => {
+            let f = if p.chance(1, 6) { 7 } else { target[p.below(nf as u64) as usize].0 };
+            let ft = target.iter().find(|x| x.0 == f).map(|x| x.1).unwrap_or("i32");
+            let right = p.chance(3, 4);
+            let (vsrc, vty) = value(&mut p, ft, right);
+            ("field-assigned", format!("fn main() {{ let r = {lit_src}; r.a{f} = {vsrc}; }}\n"), format!("c07 rec field {lit_spec} {f} {vty}"))
+        }
+    };
+    let answer = drv.ask(&request);
+    let real = compile(rt, &src, false);
+    rep.evaluations += 1;
+    let input = json!({"seed": seed, "index": index, "src": src, "rec": request, "model": answer});
+    match (&real, answer.as_str()) {
+        (Outcome::Ok, "typable") | (Outcome::TypeError(_), "untypable") => {}
+        (Outcome::Ok, "untypable") => rep.violation(
+            "a record literal that does not fit the expected record type compiled",
+            &format!("accepted:record-literal:{what}"),
+            input,
+        ),
+        (Outcome::TypeError(line), "typable") => rep.mismatch(
+            &format!("a record literal that fits the expected record type is rejected: {line}"),
+            input,
+        ),
+        (other, a) => rep.mismatch(&format!("record-literal script: model `{a}`, compiler {other:?}"), input),
+    }
+    rep.class(format!("rec:{what}:{}:{}", lit.len().min(4), answer));
+    rep.hist("record-literals", format!("{what}:{answer}"));
+}
+
+// ------------------------------------------------------------ generic instantiation
+
+/// Type parameters of a user enum, of `Option` / `List` and of the generic
+/// list methods must be instantiated consistently. The harness knows which
+/// pairs of types a script equates; the Lean side decides each pair with
+/// `Typing.compat`. Both directions are compared.
+fn gen_case(rt: &Runtime<NoCtx>, drv: &mut Driver, seed: u64, index: u64, rep: &mut Report) {
+    let mut p = Prng::for_case(seed ^ 0x6765_6e76, index);
+    let scalar = ["i32", "u8", "i64", "bool", "String", "f64"];
+    let lean_ty = |t: &str| if t == "String" { "str".to_string() } else { t.to_string() };
+    let value = |p: &mut Prng, t: &str, right: bool| -> (String, String) {
+        let t = if right { t } else { *p.pick(&scalar) };
+        match t {
+            "bool" => ("true".into(), "bool".into()),
+            "String" => ("\"s\"".into(), "str".into()),
+            "f64" => {
+                if p.chance(1, 2) { ("1.5".into(), "float_".into()) } else { ("1.5f64".into(), "f64".into()) }
+            }
+            int => {
+                if p.chance(1, 2) { ("7".into(), "int_".into()) } else { (format!("7{int}"), int.to_string()) }
+            }
+        }
+    };
+    let t1 = *p.pick(&scalar);
+    let t2 = *p.pick(&scalar);
+    let r1 = !p.chance(1, 4);
+    let r2 = !p.chance(1, 4);
+    let (v1, vt1) = value(&mut p, t1, r1);
+    let (v2, vt2) = value(&mut p, t2, r2);
+    let u = if p.chance(3, 4) { t1 } else { *p.pick(&scalar) };
+    let w = if p.chance(3, 4) { t2 } else { *p.pick(&scalar) };
+    let e = "enum E[A, B] { L(A), R(B), N }\n";
+    let (what, src, pairs): (&str, String, String) = match p.below(13) {
+        0 => ("ctor-annotated", format!("{e}fn main() {{ let x: E[{t1}, {t2}] = E.L({v1}); }}\n"), format!("{vt1}:{}", lean_ty(t1))),
+        1 => ("ctor-through-variable", format!("{e}fn main() {{ let x = E.R({v2}); let y: E[{t1}, {t2}] = x; }}\n"), format!("{vt2}:{}", lean_ty(t2))),
+        2 => (
+            "ctor-branches",
+            format!("{e}fn main(c: bool) {{ let x = if c {{ E.L({v1}) }} else {{ E.R({v2}) }}; let y: E[{t1}, {t2}] = x; }}\n"),
+            format!("{vt1}:{},{vt2}:{}", lean_ty(t1), lean_ty(t2)),
+        ),
+        3 => (
+            "match-binders",
+            format!("{e}fn main(x: E[{t1}, {t2}]) {{ match x {{ L(a) => {{ let u: {u} = a; }} R(b) => {{ let w: {w} = b; }} N => {{ }} }}; }}\n"),
+            format!("{}:{},{}:{}", lean_ty(t1), lean_ty(u), lean_ty(t2), lean_ty(w)),
+        ),
+        4 => {
+            let (v3, vt3) = value(&mut p, t1, r2);
+            ("list-literal", format!("fn main() {{ let l = [{v1}, {v3}]; let y: List[{t1}] = l; }}\n"), format!("{vt1}:{},{vt3}:{},{vt1}:{vt3}", lean_ty(t1), lean_ty(t1)))
+        }
+        5 => ("list-push", format!("fn main(l: List[{t1}]) {{ l.push({v1}); }}\n"), format!("{vt1}:{}", lean_ty(t1))),
+        6 => ("list-get", format!("fn main(l: List[{t1}]) {{ let g: Option[{u}] = l.get(0); }}\n"), format!("{}:{}", lean_ty(t1), lean_ty(u))),
+        7 => ("list-contains", format!("fn main(l: List[{t1}]) {{ let c: bool = l.contains({v1}); }}\n"), format!("{vt1}:{}", lean_ty(t1))),
+        8 => ("option-some", format!("fn main() {{ let o = Option.Some({v1}); let y: Option[{t1}] = o; }}\n"), format!("{vt1}:{}", lean_ty(t1))),
+        9 => ("nested", format!("fn main() {{ let o: Option[List[{t1}]] = Option.Some([{v1}]); }}\n"), format!("{vt1}:{}", lean_ty(t1))),
+        10 => ("type-arity", format!("{e}fn main() {{ let x: E[{t1}] = E.N; }}\n"), "never".to_string()),
+        11 => ("list-concat", format!("fn main(l: List[{t1}], m: List[{u}]) {{ let n = l + m; }}\n"), format!("{}:{}", lean_ty(t1), lean_ty(u))),
+        _ => (
+            "ctor-in-list",
+            format!("{e}fn main() {{ let l: List[E[{t1}, {t2}]] = [E.L({v1}), E.N, E.R({v2})]; }}\n"),
+            format!("{vt1}:{},{vt2}:{}", lean_ty(t1), lean_ty(t2)),
+        ),
+    };
+    let request = format!("c07 compat {pairs}");
+    let answer = drv.ask(&request);
+    let real = compile(rt, &src, false);
+    rep.evaluations += 1;
+    let input = json!({"seed": seed, "index": index, "src": src, "rec": request, "model": answer});
+    match (&real, answer.as_str()) {
+        (Outcome::Ok, "typable") | (Outcome::TypeError(_), "untypable") => {}
+        (Outcome::Ok, "untypable") => rep.violation(
+            "a script that instantiates a type parameter inconsistently compiled",
+            &format!("accepted:generic-instantiation:{what}"),
+            input,
+        ),
+        (Outcome::TypeError(line), "typable") => rep.mismatch(
+            &format!("a script with a consistent instantiation is rejected: {line}"),
+            input,
+        ),
+        (other, a) => rep.mismatch(&format!("generic-instantiation script: model `{a}`, compiler {other:?}"), input),
+    }
+    rep.class(format!("gen:{what}:{answer}"));
+    rep.hist("generic-instantiation", format!("{what}:{answer}"));
+}
+
 // ------------------------------------------------------------------ unification
 
 fn unify_case(drv: &mut Driver, seed: u64, index: u64, rep: &mut Report) {
@@ -871,6 +1056,8 @@ fn worker(args: &[String]) {
             "unify" => unify_case(&mut drv, seed, i, &mut rep),
             "lit" => lit_case(&rt, &mut drv, seed, i, &mut rep),
             "assign" => assign_case(&mut drv, i, &mut rep),
+            "rec" => rec_case(&rt, &mut drv, seed, i, &mut rep),
+            "gen" => gen_case(&rt, &mut drv, seed, i, &mut rep),
             _ => {}
         }
     }
@@ -1001,6 +1188,7 @@ fn main() {
             let matches = env_n("C07_MATCH", pick(5_000, 20_000, 150_000));
             let unifies = env_n("C07_UNIFY", pick(20_000, 60_000, 600_000));
             let lits = env_n("C07_LIT", pick(6_000, 20_000, 150_000));
+            let recs = env_n("C07_REC", pick(6_000, 20_000, 150_000));
             let jobs = env_n("C07_JOBS", 4);
             let mut rep = Report::default();
             run_phase("ops", seed, ops_total(), 700, jobs, &mut rep);
@@ -1008,9 +1196,11 @@ fn main() {
             run_phase("match", seed, matches, 500, jobs, &mut rep);
             run_phase("unify", seed, unifies, 2000, jobs, &mut rep);
             run_phase("lit", seed, lits, 1000, jobs, &mut rep);
+            run_phase("rec", seed, recs, 1000, jobs, &mut rep);
+            run_phase("gen", seed, recs, 1000, jobs, &mut rep);
             run_phase("prog", seed, progs, 250, jobs, &mut rep);
             rep.notes.push(format!(
-                "phases: ops {} (whole table), match {matches}, unify {unifies}, literal variables {lits}, programs {progs} (evaluations count judged mutants, not programs)",
+                "phases: ops {} (whole table), match {matches}, unify {unifies}, literal variables {lits}, record literals {recs}, generic instantiation {recs}, programs {progs} (evaluations count judged mutants, not programs)",
                 ops_total()
             ));
             rep.emit();
@@ -1073,6 +1263,16 @@ fn replay_one(input: &Value, rep: &mut Report) {
             if !d.starts_with("err") {
                 return;
             }
+        }
+        if let Some(req) = input["rec"].as_str() {
+            let mut drv = Driver::spawn().expect("lean driver");
+            let a = drv.ask(req);
+            println!("declarative judge: {a}");
+            rep.evaluations += 1;
+            if a == "untypable" && compile(&rt, src, false) == Outcome::Ok {
+                rep.violation("a record literal that does not fit the expected record type compiled", "accepted:record-literal:replay", input.clone());
+            }
+            return;
         }
         if let Some(lit) = input["lit"].as_str() {
             let mut drv = Driver::spawn().expect("lean driver");
